@@ -70,6 +70,15 @@ impl Obs {
         if out.starts_with("panic") {
             rep.fail("c06/panic", "an API operation panicked", &g.line());
         }
+        if f[0] == "po" && g.w.tx.is_some() {
+            // a poll that re-queued a frame for retransmission (Sent -> Sendable) must wake the transmit side,
+            // or the retransmission waits for some unrelated wake-up
+            for s in 0..before.len() {
+                if before[s] == 4 && after[s] == 2 && !g.w.tx_woken.0.load(std::sync::atomic::Ordering::SeqCst) {
+                    rep.fail("c06/retry-without-wake", &format!("slot {s} was re-queued for retransmission but the TX waker was not woken"), &g.line());
+                }
+            }
+        }
         match f[0] {
             "al" => {
                 if let Some(s) = out.strip_prefix("ok.") {
